@@ -299,6 +299,11 @@ def c11(tier):
     # (the retry positions are evaluated when an execution record is created - also by a rerun)
     rend += [d for d in fam if d["fault"]["pos"] in ("retry_count", "retry_delay", "retry_when")]
     run.add_jobs(jobs_for(rend, {"rerun": 1, "rerun_tasks": "all", "max_nodes": sizes(tier, 900, 4000)}, s, ("yaql", "jinja")))
+    # the conductor is persisted and restored right after construction and after every call: what was recorded
+    # (the error entries of input / vars rendering among them) is still there
+    run.add_jobs(jobs_for([d for d in fam if d["fault"]["pos"] in ("vars", "output", "when", "publish", "action")],
+                          {"persist_points": "all", "sample": 3, "max_nodes": 300}, s, ("yaql", "jinja")))
+    run.add_jobs(jobs_for([d for d in fam if d["fault"]["pos"] == "vars"], {"persist_points": [0], "max_nodes": 100}, s))
     # the faulty position evaluated by a late completion: the action went pending (an inquiry), the workflow
     # was paused / canceled meanwhile, then the action completes
     late = F.with_e2([d for d in fam if d["fault"]["pos"] in ("when", "publish", "retry_when", "retry_count", "retry_delay")],
@@ -439,6 +444,14 @@ def c17(tier):
                           {"probe_rerun": True, "pause": 1, "cancel": 1, "max_nodes": sizes(tier, 600, 6000)}, s))
     if tier != "quick":
         run.add_jobs(jobs_for(F.curated(), dict(env, rerun=2, cancel=1), s))
+    # one rerun request for every execution (whatever its status) of a finished history of the shapes with splits
+    # and joins, then every lazy continuation (re-offered tasks wait while others report)
+    pj = []
+    for nm, ft in (("split_join", "t5"), ("two_roots_split_join", "z"), ("join1_two_roots", "t3"), ("diamond", "t4")):
+        d = [x for x in F.curated() if x["name"] == nm][0]
+        for k, pre in enumerate(F.rerun_prefixes(d, ft)):
+            pj.append((d, {"prefix": pre, "lazy": True, "max_nodes": sizes(tier, 300, 1500)}, "yaql", "task", s * 1000 + k))
+    run.add_jobs(pj)
     gs, skipped = G.rerun_groups(run.results, sizes(tier, 30, 300), random.Random(s))
     run.extra["rerun_groups_skipped"] = skipped
     run.add_groups(gs)
@@ -465,7 +478,8 @@ def c19(tier):
     run.add_jobs(jobs_for(F.fault_family(("undef", "type")) + F.multi_ref_family(), {"sample": 2, "max_nodes": 300}, s, ("yaql", "jinja")))
     # determinism across interpreter hash seeds: sampled complete histories replayed in subprocesses
     seeds = (0, 1, 7) if tier == "quick" else (0, 1, 2, 3, 7, 11, 101, 4242)
-    gs, errs = G.seed_groups(run.results, seeds, sizes(tier, 2, 6), random.Random(s), run.tmp)
+    gs, errs = G.seed_groups(run.results, seeds, sizes(tier, 2, 6), random.Random(s), run.tmp,
+                             inspect_only=F.inspect_order_family())
     for e in errs[:3]:
         run.machinery.append("seed run: " + str(e)[:1500])
     run.extra["hash_seeds"] = list(seeds)
@@ -610,7 +624,8 @@ def replay(prop, path):
         print("no %s clause fails on this replay" % prop)
         return 0
     r = X.run_schedule(rp["def"], rp["schedule"], lang=rp.get("lang", "yaql"), tok=rp.get("tok", "task"),
-                       lazy=bool(rp.get("env", {}).get("lazy")), delayed=rp.get("env", {}).get("delayed"))
+                       lazy=bool(rp.get("env", {}).get("lazy")), delayed=rp.get("env", {}).get("delayed"),
+                       persist_points=rp.get("env", {}).get("persist_points"))
     tree = X.Tree(rp["def"])
     tree.add_steps(0, r.steps, None)
     run = P.Run(prop, "quick", [prop + "_"])
